@@ -595,3 +595,15 @@ PROPS["C05"]["assumptions"] = list(PROPS["C05"]["assumptions"]) + [
     "micro-step model: a segment between two suspension points is atomic (literally so on one worker thread; across workers the channel "
     "lock serialises segments of one channel, the cross-map check-then-act pairs D23 / D27 are not covered)"]
 PROPS["C19"]["expect_theorems"] = list(PROPS["C19"]["expect_theorems"])
+
+
+# C12 / C06: error reasons (recoverable subset, evaluated on the real type) and error sites (request id present on every
+# recoverable refusal of a request handler), regenerated from the source on every run
+PROPS["C12"]["theorems"] = list(PROPS["C12"]["theorems"]) + ["Narwhal.Theorems.C12Table"]
+PROPS["C12"]["expect_theorems"] = list(PROPS["C12"]["expect_theorems"]) + ["Narwhal.Server.errors_table_ok", "Narwhal.Server.error_sites_ok"]
+PROPS["C12"]["level_text"] += (" Table obligations regenerated from the source on every run: the model's recoverable / closing split of "
+                               "the error reasons is the code's `Error::is_recoverable` (evaluated on the real type), and every "
+                               "`narwhal_protocol::Error::new(..)` in the channel manager and the C2S dispatcher whose reason is recoverable "
+                               "carries `.with_id(..)` unless it belongs to the id-less handshake.")
+PROPS["C06"]["theorems"] = list(PROPS["C06"]["theorems"]) + ["Narwhal.Theorems.C12Table"]
+PROPS["C06"]["expect_theorems"] = list(PROPS["C06"]["expect_theorems"]) + ["Narwhal.Server.errors_table_ok", "Narwhal.Server.closing_reasons_ok"]
